@@ -8,6 +8,7 @@ package main
 import (
 	"fmt"
 	"go/types"
+	"os"
 
 	"golang.org/x/tools/go/ssa"
 )
@@ -23,6 +24,8 @@ type thread struct {
 	hasTimer  bool  // waiting in AwaitTimer: becomes runnable when the harness clock reaches timerAt
 	timerAt   int64
 }
+
+var schedTrace = os.Getenv("ZZSCHEDTRACE") != ""
 
 type pathAbort struct{}
 
@@ -206,6 +209,13 @@ func (e *Exec) reschedule(me *thread, canContinue bool) {
 		}
 		cands = ord
 		k := e.choose(len(cands), 's')
+		if schedTrace {
+			ids := []int{}
+			for _, t := range cands {
+				ids = append(ids, t.id)
+			}
+			fmt.Fprintln(os.Stderr, "ZZSCHED preempt-point me", me.id, "cands", ids, "pick", k)
+		}
 		if k == 0 {
 			return
 		}
@@ -218,6 +228,13 @@ func (e *Exec) reschedule(me *thread, canContinue bool) {
 		// DetSched: when the running thread blocks or ends, the first enabled thread (creation order) runs -
 		// one schedule per history instead of every order of the runnable threads
 		k = e.choose(len(cands), 's')
+	}
+	if schedTrace {
+		ids := []int{}
+		for _, t := range cands {
+			ids = append(ids, t.id)
+		}
+		fmt.Fprintln(os.Stderr, "ZZSCHED blocking-point me", me.id, "cands", ids, "pick", k)
 	}
 	if cands[k] == me {
 		return
@@ -253,6 +270,15 @@ func (e *Exec) deadlock() {
 func (e *Exec) schedPoint(fr *frame) {
 	if len(e.threads) <= 1 || e.cfg.MarkOnly {
 		return
+	}
+	if schedTrace {
+		w := ""
+		for f, d := fr, 0; f != nil && d < 4; f, d = f.caller, d+1 {
+			if f.fn != nil {
+				w += " " + f.fn.String()
+			}
+		}
+		fmt.Fprintln(os.Stderr, "ZZSCHED at", w)
 	}
 	e.reschedule(fr.th, true)
 }
